@@ -67,6 +67,8 @@ impl<'a> Datagram<'a> {
 
     /// Returns the needed capacity to write this datagram into a buffer.
     #[inline(always)]
+    #[cfg_attr(kani, kani::requires(self.qstream_id.into_u64() <= crate::verif_kani::spec::QSTREAM_MAX && self.payload.len() <= isize::MAX as usize))]
+    #[cfg_attr(kani, kani::ensures(|r: &usize| *r == crate::verif_kani::spec::varint_len(self.qstream_id.into_u64()) + self.payload.len()))]
     pub fn write_size(&self) -> usize {
         Self::header_size(self.qstream_id) + self.payload.len()
     }
@@ -76,6 +78,8 @@ impl<'a> Datagram<'a> {
     /// Computes the space overhead (HTTP3 header) due to the `qstream_id`
     /// encoding into an HTTP3 datagram.
     #[inline(always)]
+    #[cfg_attr(kani, kani::requires(qstream_id.into_u64() <= crate::verif_kani::spec::QSTREAM_MAX))]
+    #[cfg_attr(kani, kani::ensures(|r: &usize| *r == crate::verif_kani::spec::varint_len(qstream_id.into_u64())))]
     pub fn header_size(qstream_id: QStreamId) -> usize {
         qstream_id.into_varint().size()
     }
@@ -92,6 +96,11 @@ impl<'a> Datagram<'a> {
         self.payload
     }
 }
+
+/// Verification harnesses with access to this module's private items (only under `cargo kani`).
+#[cfg(kani)]
+#[path = "/verif/kani/proto/in_datagram.rs"]
+pub(crate) mod verif_kani;
 
 #[cfg(test)]
 mod tests {
